@@ -195,8 +195,26 @@ pub fn run(cfg: &Config) -> i32 {
     let ncorpus = c.entries.len() as u64;
     let contents = corpus::field_contents(&c);
     let nfield = contents.len() as u64;
-    let total_n = n_gen + ncorpus + nfield;
+    // spec-derived candidates of every concrete field type (boundary lengths, dates around the century
+    // window, every character class): whatever is accepted must survive the JSON conversions
+    let mut spec_cands: Vec<(String, String)> = Vec::new();
+    for spec in crate::spec::fieldfmt::specs() {
+        let mut rr = Rng::new(cfg.seed, &format!("c08-spec:{}", spec.ty), 0);
+        for cand in crate::spec::fieldfmt::candidates(&spec, cfg.seed as usize, &mut rr, 0) {
+            if !cand.content.contains('\r') {
+                spec_cands.push((spec.ty.to_string(), cand.content));
+            }
+        }
+    }
+    let nspec = spec_cands.len() as u64;
+    let total_n = n_gen + ncorpus + nfield + nspec;
     let total = par_for(cfg, total_n, |i, l| {
+        if i >= n_gen + ncorpus + nfield {
+            let (ty, content) = &spec_cands[(i - n_gen - ncorpus - nfield) as usize];
+            let case = Case::Field { ty: ty.clone(), input: content.clone(), variant: None };
+            judge(cfg, &case, l, &format!("field:{ty}"));
+            return;
+        }
         if i < n_gen {
             let li = (i % layouts.len() as u64) as usize;
             let vi = i / layouts.len() as u64;
